@@ -78,6 +78,25 @@ func anchoredFuncs(prog *load.Program, obs []core.Obligation) map[*ast.FuncDecl]
 				continue
 			}
 			for _, d := range f.Decls {
+				// function literals in package-level variable initialisers (the generated jump tables)
+				if gd, isGen := d.(*ast.GenDecl); isGen {
+					ast.Inspect(gd, func(m ast.Node) bool {
+						lit, ok := m.(*ast.FuncLit)
+						if !ok {
+							return true
+						}
+						lo := prog.Fset.Position(lit.Pos()).Line
+						hi := prog.Fset.Position(lit.End()).Line
+						for l := range lines[rel] {
+							if l >= lo && l <= hi {
+								out[&ast.FuncDecl{Name: ast.NewIdent(fmt.Sprintf("literal@%d", lo)), Type: lit.Type, Body: lit.Body}] = rel
+								break
+							}
+						}
+						return false
+					})
+					continue
+				}
 				fd, ok := d.(*ast.FuncDecl)
 				if !ok || fd.Body == nil {
 					continue
